@@ -20,6 +20,8 @@ pub mod io {
         pub fn kind(&self) -> (r: ErrorKind) ensures r == self.skind() { unimplemented!() }
         #[verifier::external_body]
         pub fn from_raw_os_error(code: i32) -> (r: Error) ensures r.os_code() == Some(code) { unimplemented!() }
+        #[verifier::external_body]
+        pub fn other(msg: String) -> (r: Error) ensures r.os_code() is None, r.skind() == ErrorKind::Other { unimplemented!() }
     }
 }
 
